@@ -249,7 +249,7 @@ func TestC10Tree(t *testing.T) {
 // walkLeaves visits the leaves of a filter description and of the filter built
 // from it, in step.
 func walkLeaves(n *gen.FNode, f *jsonapi.Filter, visit func(*gen.FNode, *jsonapi.Filter)) {
-	if n.Op == "and" || n.Op == "or" {
+	if n.Op == "and" || n.Op == "or" || n.Group {
 		kids, _ := f.Val.([]*jsonapi.Filter)
 		for i, k := range n.Kids {
 			if i < len(kids) {
